@@ -187,6 +187,45 @@ def special_clause(cl, rng, n, replay):
                 return
 
 
+def emptied_azimuth_clause(cl, rng, n, replay):
+    """an azimuth all of whose windows were rejected (manual rejection can do that): the weights of the property are not defined for it.  The library may refuse (it does:
+    ZeroDivisionError out of the weights); if it reports numbers instead, they obey the property - the covariance diagonal is the squared standard deviation, and with
+    one azimuth left everything equals the traditional statistic of that azimuth"""
+    import warnings
+    import hvsrpy
+    for j in range(n):
+        naz = 2 if j % 2 else int(rng.integers(2, 4))
+        m = int(rng.integers(20, 36))
+        f = np.geomspace(0.2, 20, m)
+        As = [np.array([1 + rng.uniform(1, 4) * np.exp(-(np.log(f / rng.uniform(0.8, 6)) / 0.3) ** 2) + 0.1 * np.abs(rng.normal(0, 1, m)) for _ in range(int(rng.integers(3, 7)))])
+              for _ in range(naz)]
+        h = hvsrpy.HvsrAzimuthal([hvsrpy.HvsrTraditional(f, A) for A in As], list(np.linspace(10, 150, naz)))
+        if any(np.isnan(hv._main_peak_frq).any() for hv in h.hvsrs):
+            cl.skipped += 1
+            continue
+        gone = int(rng.integers(0, naz))
+        k = len(h.hvsrs[gone].valid_window_boolean_mask)
+        h.hvsrs[gone].valid_window_boolean_mask = np.zeros(k, dtype=bool)
+        h.hvsrs[gone].valid_peak_boolean_mask = np.zeros(k, dtype=bool)
+        cl.case((j, naz, gone))
+        for dist in ("lognormal", "normal"):
+            with warnings.catch_warnings():
+                warnings.simplefilter("ignore")
+                try:
+                    sf, sa, cov, mf = h.std_fn_frequency(dist), h.std_fn_amplitude(dist), h.cov_fn(dist), h.mean_fn_frequency(dist)
+                except (ZeroDivisionError, ValueError, IndexError, FloatingPointError):
+                    continue                      # refused: no number is reported for a state the weights are not defined for
+            ok = np.isfinite(sf) and np.isfinite(sa) and close(cov[0, 0], sf ** 2, 1e-9, 1e-18) and close(cov[1, 1], sa ** 2, 1e-9, 1e-18)
+            if ok and naz == 2:
+                t = h.hvsrs[1 - gone]
+                ok = close(sf, t.std_fn_frequency(dist), 1e-9, 1e-15) and close(mf, t.mean_fn_frequency(dist), 1e-9, 1e-15)
+            if not ok:
+                cl.fail("hvsrpy.hvsr_azimuthal.HvsrAzimuthal._compute_statistical_weights", f"[{dist}] azimuth {gone} of {naz} has no accepted window and numbers are reported all the same: "
+                        f"std_fn_frequency {sf}, covariance diagonal {cov[0, 0]} (its square root {np.sqrt(abs(cov[0, 0]))}); the diagonal is not the squared standard deviation, or "
+                        "with one azimuth left the statistic is not the traditional one", signature="az:emptied-azimuth", dist=dist)
+                return
+
+
 def degenerate_clause(cl, rng, n, replay):
     """inputs at the edge of the estimators' domain: an accepted window whose curve is exactly 0 at one frequency (legal: amplitudes are >= 0) must not change
     what is reported at the other frequencies; windows that agree exactly (one peak frequency for all, one amplitude at some frequency) have standard deviation 0
@@ -262,6 +301,8 @@ CLAUSES = [
     ("cross-check:single azimuth == traditional; equal counts == pooled unweighted", "cross-check", "random objects", "hvsrpy.hvsr_azimuthal.HvsrAzimuthal", (15, 300), special_clause),
     ("bounded:a zero sample in an accepted window leaves the other frequencies alone; exactly agreeing windows have standard deviation 0 (and cov diagonal = std^2)", "bounded",
      "1-3 azimuths x 3-6 windows, 2 distributions", "hvsrpy.hvsr_azimuthal.HvsrAzimuthal", (16, 200), degenerate_clause),
+    ("bounded:an azimuth without any accepted window is refused, or the numbers reported obey the property (cov diagonal = std^2; one azimuth left = traditional)", "bounded",
+     "2-3 azimuths x 3-6 windows, one azimuth emptied, 2 distributions", "hvsrpy.hvsr_azimuthal.HvsrAzimuthal._compute_statistical_weights", (16, 200), emptied_azimuth_clause),
     ("bounded:mask well-formedness under time-domain rejection (F-9 state, azimuthal)", "bounded", "one constructed history", "hvsrpy.window_rejection.sta_lta_window_rejection", (1, 1), known_f9),
 ]
 
